@@ -610,3 +610,63 @@ func dptName(dt dptType) string { return "dpt." + dt.NT.Obj().Name() }
 func helperName(fn *ssa.Function) string {
 	return strings.TrimPrefix(FuncName(fn), "dpt.")
 }
+
+// checkDecodeStores: every exit of a datapoint decoder that may report
+// success lies behind something that sets the receiver - a store to it or to
+// one of its fields, or a call that is handed the receiver (or a field's
+// address) to fill.  A decoder that validates its input and forgets to keep
+// the result leaves the caller's previous value in place.
+func checkDecodeStores(c *Check, p *Program, dts []dptType, rule string) {
+	n := 0
+	for _, dt := range dts {
+		un := dt.Unpack
+		if len(un.Params) == 0 || len(un.Blocks) == 0 {
+			continue
+		}
+		recv := ssa.Value(un.Params[0])
+		var rooted func(v ssa.Value, d int) bool
+		rooted = func(v ssa.Value, d int) bool {
+			if v == recv {
+				return true
+			}
+			if d > 6 {
+				return false
+			}
+			switch x := v.(type) {
+			case *ssa.ChangeType:
+				return rooted(x.X, d+1)
+			case *ssa.Convert:
+				return rooted(x.X, d+1)
+			case *ssa.FieldAddr:
+				return rooted(x.X, d+1)
+			case *ssa.IndexAddr:
+				return rooted(x.X, d+1)
+			case *ssa.MakeInterface:
+				return rooted(x.X, d+1)
+			}
+			return false
+		}
+		isSet := func(in ssa.Instruction) bool {
+			switch x := in.(type) {
+			case *ssa.Store:
+				return rooted(x.Addr, 0)
+			case *ssa.Call:
+				for _, a := range x.Common().Args {
+					if rooted(a, 0) {
+						return true
+					}
+				}
+			}
+			return false
+		}
+		for _, r := range returnsOf(un) {
+			if len(r.Results) != 1 || !p.returnMayBeNil(r, 0) {
+				continue
+			}
+			n++
+			mn, _, okP := pathCountTo(un.Blocks[0], r.Block(), isSet)
+			c.Decide(okP && mn >= 1, rule, dptName(dt)+".Unpack keeps what it decoded", p.InstrPos(r), "every path to this exit sets the receiver", "a path reaches this successful exit without setting the receiver: the decoder accepts the payload and the caller's previous value stays in place")
+		}
+	}
+	c.Floor(rule, "successful exits of datapoint decoders", n, 170)
+}
